@@ -31,6 +31,15 @@ expected network is read off the case DESCRIPTION only (`graph_states`); rows ar
 returned order must be the lexicographic label order `_species_and_reaction_order` documents, and every returned kernel vector /
 witness has to annihilate the label-indexed matrix of the described network.
 
+The graph READING itself is modelled too (`SynKitModel/BipGraph.lean`, driver command `bip.stoich`): at every query on a
+hand-built graph the NetworkX object is serialised node by node and edge by edge (`bip_request`) and what
+build_S_minus_plus(G) / build_S(G) returned has to equal the model's labels, order, S_minus, S_plus, S (`judge_bip`); theorems
+`graphS_eq_buildS`, `graphS_eq_buildS_upto_ties` say that this model is `buildS` of the described network `netOfGraph G`
+(checked against the case description as a harness self-test), `graphS_orientation_invariant`,
+`graphS_undirected_eq_directed`, `graphS_missing_stoich` that it does not depend on how the graph is written.  The stream
+`graph-written` uses the model as the only oracle: graphs given by their add_node / add_edge calls (arcs either way, repeated
+pairs overwriting stored edges of the non-multi classes, missing roles, undeclared nodes).
+
 Coverage-gap streams (`noscipy+extras`, `graph-multi`): (1) everything above is repeated in a SIMULATED environment without
 SciPy (`_Env`: the three module globals the guarded import of stoich.py sets are put into the state its `except` arm leaves),
 which executes the SVD null-space fall-back, the basis-scan fall-backs of is_conservative / compute_conservativity /
@@ -81,6 +90,11 @@ THEOREMS = [
     "SynKit.Stoich.consistent_logic",
     "SynKit.Stoich.consistent_logic_iff",
     "SynKit.Stoich.C17.full",
+    "SynKit.BipGraph.graphS_eq_buildS",
+    "SynKit.BipGraph.graphS_eq_buildS_upto_ties",
+    "SynKit.BipGraph.graphS_orientation_invariant",
+    "SynKit.BipGraph.graphS_undirected_eq_directed",
+    "SynKit.BipGraph.graphS_missing_stoich",
 ]
 
 EPS = 1e-8          # the implementation's default margin
@@ -101,7 +115,12 @@ GATES = ("S entries = produced - consumed (rows by returned species label, colum
          "labelled s and a column labelled r = produced - consumed of s in a reaction labelled r (columns with equal label as a multiset; a "
          "missing stoich counts 1); same for S_minus / S_plus; build_S(graph) = build_S(CRNHyperGraph of the described network) = that "
          "store's incidence_matrix under identical species labels; rank, dimensions, verdicts as above against certificates of the described "
-         "network; every kernel basis / witness annihilates the described network's matrix indexed by the returned labels.  "
+         "network; every kernel basis / witness annihilates the described network's matrix indexed by the returned labels; and, independently "
+         "of the description, (species labels, reaction labels, S_minus, S_plus, S) or the ValueError of build_S_minus_plus(G) / build_S(G) equal, "
+         "INCLUDING row / column order, the Lean model of the graph reading (driver command bip.stoich, SynKitModel/BipGraph.lean) evaluated "
+         "on the same NetworkX object serialised node by node and edge by edge (theorems graphS_eq_buildS / graphS_eq_buildS_upto_ties: on a "
+         "well-formed graph that model is build_S of the described network; a difference on an ill-formed graph is reported without failing "
+         "input); GRAPH-WRITTEN: the same model-based gate with the graph given by its add_node / add_edge calls only.  "
          "SIMULATED ENVIRONMENT WITHOUT SciPy: all gates above, except that a verdict None is accepted where (and only where) the docstrings "
          "announce it (is_conservative / compute_conservativity: returned left-kernel basis has >= 2 columns, none sign-definite; is_consistent: "
          "returned right-kernel basis is non-empty, no column sign-definite); the three verdicts and the presence of a witness equal the Lean "
@@ -1380,6 +1399,7 @@ def evaluate_sessions(ctx, cases, parallel=True, worker=None):
     leans = ctx.lean().ok([st[2] for _, _, st in flat], shards=8)
     lidx = [j for j, (_, _, st) in enumerate(flat) if st[3] is not None]
     logics = dict(zip(lidx, ctx.lean().ok([flat[j][2][3] for j in lidx], shards=8)))
+    attach_bip(ctx, [st[0] for _, _, st in flat])
     out = [([], calls) for _, calls in rows]
     for j, (i, k, st) in enumerate(flat):
         out[i][0].append((st[0], st[1], leans[j], logics.get(j)))
@@ -1604,6 +1624,96 @@ def label_matrix(dump, species, rules, Si):
     return np.array([[cols[k][1][i] for k in pick] for i in ridx], dtype=float).reshape(len(species), len(cols))
 
 
+# ---------------------------------------------------------------- the graph reading itself, against its Lean model (bip.stoich)
+def _bip_int(x):
+    """Attribute value -> int or None (absent); raises ValueError when it is neither (the model has integers only)."""
+    if x is None:
+        return None
+    if isinstance(x, bool):
+        return int(x)
+    if isinstance(x, int):
+        return x
+    if isinstance(x, float) and x.is_integer():
+        return int(x)
+    raise ValueError(f"not an integer: {x!r}")
+
+
+def bip_request(G, arcs=None):
+    """The NetworkX object G serialised node by node (G.nodes order) and edge by edge for the driver command bip.stoich
+    (SynKitModel/BipGraph.lean).  arcs: the add_edge calls [(u, v, attrs)] that built G (then the model also has to
+    reproduce what NetworkX stores); default: the stored edges G.edges(data=True).  -> request, or {"skip": reason}."""
+    ids = [str(n) for n in G.nodes]
+    plain = len(set(ids)) == len(ids)
+    tok = (lambda n: str(n)) if plain else (lambda n: repr(n))      # 1 and "1" in one graph: ids by repr, labels explicit
+    try:
+        nodes = []
+        for n, d in G.nodes(data=True):
+            kind = d.get("kind")
+            if kind is not None and not isinstance(kind, str):
+                return {"skip": "kind is not a string"}
+            nd = {"id": tok(n), "kind": kind, "flag": _bip_int(d.get("bipartite")),
+                  "label": str(d["label"]) if "label" in d else (None if plain else str(n))}
+            nodes.append(nd)
+        out = []
+        for u, v, d in (G.edges(data=True) if arcs is None else arcs):
+            role = d.get("role")
+            if role is not None and not isinstance(role, str):
+                return {"skip": "role is not a string"}
+            out.append({"src": tok(u), "dst": tok(v), "role": role, "stoich": _bip_int(d["stoich"]) if "stoich" in d else None})
+    except ValueError as e:
+        return {"skip": str(e)}
+    return {"cmd": "bip.stoich", "directed": bool(G.is_directed()), "multi": bool(G.is_multigraph()), "nodes": nodes, "arcs": out,
+            "ids": "str" if plain else "repr"}
+
+
+def attach_bip(ctx, observations):
+    """Ask the driver for every observation that carries a serialised graph; the answer is stored in obs["bip_lean"]."""
+    todo = [o for o in observations if isinstance(o, dict) and isinstance(o.get("bip"), dict) and "cmd" in o["bip"] and "bip_lean" not in o]
+    if todo:
+        for o, rep in zip(todo, ctx.lean().ok([{k: v for k, v in o["bip"].items() if k != "ids"} for o in todo], shards=8)):
+            o["bip_lean"] = rep
+
+
+BIP_GATE = ("build_S_minus_plus / build_S on a bipartite NetworkX graph differ from the Lean model of the graph reading (bip.stoich: "
+            "_as_bipartite, _split_species_reactions, _species_and_reaction_order, build_S_minus_plus) evaluated on the same graph, "
+            "serialised node by node and edge by edge")
+
+
+def judge_bip(obs):
+    """Gate: what the implementation returned for the graph object = what the Lean model of the graph reading returns for
+    the same object (labels and their order, S_minus, S_plus, S, or ValueError).  -> list of (what, detail, classes)."""
+    lean = obs.get("bip_lean")
+    if lean is None or "crash" in obs:
+        return []
+    if lean.get("wfCore") is True and lean.get("reactionLabelsDistinct") is True and lean.get("netAgrees") is not True:
+        raise Infra(f"bip.stoich contradicts theorem graphS_eq_buildS on {json.dumps(obs['bip'])[:600]}")
+    if "error" in obs or "error" in lean:
+        if obs.get("error") == lean.get("error"):
+            return []
+        return [(BIP_GATE, {"impl": {"error": obs.get("error")}, "model": {"error": lean.get("error")}, "graph": obs["bip"]}, (),
+                 lean.get("wfCore") is not True)]
+    impl = {"rows": obs["species"], "cols": obs["rules"], "S_minus": obs["S_minus"], "S_plus": obs["S_plus"], "S": obs["S"]}
+    model = {k: lean[k] for k in impl}
+    if not obs.get("integral", True) or impl != model:
+        # well-formed graph: the model IS the specification (theorem graphS_eq_buildS / _upto_ties: the matrices of the described
+        # network) -> failing input; otherwise the property does not determine the answer: the correspondence broke
+        return [(BIP_GATE, {"impl": impl, "model": model, "graph": obs["bip"], "stored": lean.get("stored"),
+                            "as_bipartite": lean.get("bipartite"), "described_network": lean.get("net")}, (),
+                 lean.get("wfCore") is not True)]
+    return []
+
+
+def bip_net_matches_dump(obs):
+    """Harness-internal: the network the Lean model reads off the graph (netOfGraph) is the network the case description
+    stands for (species as a set; reactions as a multiset of (label, consumed, produced))."""
+    lean = obs.get("bip_lean")
+    if lean is None or "net" not in lean:
+        return True
+    dump, net = obs["dump"], lean["net"]
+    key = lambda e: (e["rule"], sorted([str(a), int(b)] for a, b in e["r"]), sorted([str(a), int(b)] for a, b in e["p"]))
+    return sorted(net["species"]) == sorted(dump["species"]) and sorted(map(key, net["edges"])) == sorted(map(key, dump["edges"]))
+
+
 def observe_G(G, dump, plan):
     """Run every anchored entry point on one NetworkX graph object.  `dump`: the network the description stands for
     (used for the label-indexed matrix the returned vectors have to annihilate and for the equivalent CRNHyperGraph)."""
@@ -1611,7 +1721,7 @@ def observe_G(G, dump, plan):
     from synkit.CRN.Props import stoich
     from synkit.CRN.Petri import semiflows
 
-    out = {"dump": dump}
+    out = {"dump": dump, "bip": bip_request(G)}
     real = stoich.linprog
     rec = _LinprogRecorder(real)
     raw = {}
@@ -1920,7 +2030,17 @@ def work_graph(case):
 
 
 def judge_G(obs, cert, lean):
-    """Gates for one query on a hand-built graph.  -> list of (what, detail, classes[, no_input])."""
+    """Gates for one query on a hand-built graph: the description-based gates (`judge_G_described`: the expected network is
+    read off the case description) and the model-based gate (`judge_bip`: the expected matrices come from the Lean model of
+    the graph reading applied to the very NetworkX object).  -> list of (what, detail, classes[, no_input])."""
+    if "crash" not in obs and not bip_net_matches_dump(obs):
+        raise Infra("netOfGraph (Lean model of the graph reading) differs from the network the case description stands for: "
+                    + json.dumps({"net": obs["bip_lean"]["net"], "dump": obs["dump"]})[:900])
+    return judge_G_described(obs, cert, lean) + judge_bip(obs)
+
+
+def judge_G_described(obs, cert, lean):
+    """Description-based gates for one query on a hand-built graph.  -> list of (what, detail, classes[, no_input])."""
     v = []
     dump = obs["dump"]
     if "crash" in obs:
@@ -2003,6 +2123,12 @@ def record_G(ctx, case, k, obs, cert, tag, canon):
         return
     m, n, r = len(dump["species"]), len(dump["edges"]), cert["r"]
     ctx.count(f"{tag}:queries")
+    b = obs.get("bip") or {}
+    ctx.count("graph:lean_model_of_graph_reading:" + ("compared" + ("(node ids by repr)" if b.get("ids") == "repr" else "")
+                                                       if "bip_lean" in obs else "skipped:" + str(b.get("skip"))))
+    if "bip_lean" in obs:
+        ctx.count("graph:lean_model:hypotheses_of_graphS_eq_buildS:" + ("hold" if obs["bip_lean"].get("wf") else
+                  "reaction_labels_tied" if obs["bip_lean"].get("wfCore") else "fail"))
     ctx.count("graph:" + (("MultiDiGraph" if g["directed"] else "MultiGraph(undirected)") if g.get("multi") else
                           ("DiGraph" if g["directed"] else "Graph(undirected)")))
     ctx.count("conservative:" + ("yes" if cert["cons"] == "pos" else "no"))
@@ -2226,6 +2352,184 @@ def run_graphs(ctx, cases, tag):
 
 
 # =============================================================== generators
+# =============================================================== graphs given by their construction only ("graph-written")
+# No description of a network: the case is the list of add_node / add_edge calls.  The expected answer is the Lean model of the
+# graph reading (bip.stoich) applied to the node list of the finished object and to the add_edge CALLS, so the model also has
+# to reproduce what NetworkX stores (a later add_edge on the same pair of a non-multi graph updates the stored edge).  Arcs point
+# either way, roles / stoich may be missing, nodes may exist only because an edge mentions them.
+WRITTEN_CLASSES = ["DiGraph", "MultiDiGraph", "Graph", "MultiGraph"]
+
+
+def written_graph_case(rnd):
+    n_s, n_r, n_f = rnd.randint(1, 3), rnd.randint(1, 2), rnd.choice([0, 0, 1])
+    ints = rnd.random() < 0.5
+    pool_ids = rnd.sample(range(0, 40), n_s + n_r + n_f) if ints else rnd.sample(["a", "b", "c", "x", "y", "R", "r1", "r10", "r2", "S:1", "n 1", ""], n_s + n_r + n_f)
+    labels = rnd.sample(["A", "B", "C", "a", "10", "9"], n_s)
+    if rnd.random() < 0.08 and n_s >= 2:
+        labels[1] = labels[0]                          # species labels tied: outside the property, inside the model
+    nodes = []
+    for k in range(n_s + n_r + n_f):
+        part = "s" if k < n_s else "r" if k < n_s + n_r else "f"
+        a = {}
+        if part == "f":
+            a = dict(rnd.choice(FOREIGN_ATTRS))
+        else:
+            fl = rnd.choice(["kind", "bipartite", "both", "conflict"])
+            if fl in ("kind", "both", "conflict"):
+                a["kind"] = "species" if part == "s" else "reaction"
+            if fl in ("bipartite", "both"):
+                a["bipartite"] = 0 if part == "s" else 1
+            if fl == "conflict":
+                a["bipartite"] = 1 if part == "s" else 0
+            if part == "s" and rnd.random() < 0.75:
+                a["label"] = labels[k]
+            if part == "r" and rnd.random() < 0.6:
+                a["label"] = rnd.choice(["r", "r1", "r2", "R"])
+        nodes.append({"id": pool_ids[k], "part": part, "attrs": a})
+    S, R, F = list(range(n_s)), list(range(n_s, n_s + n_r)), list(range(n_s + n_r, n_s + n_r + n_f))
+    calls = [["n", k] for k in range(len(nodes)) if rnd.random() < 0.92]
+    for _ in range(rnd.randint(1, 7)):
+        c = rnd.random()
+        if c < 0.78:
+            u, v = rnd.choice(S), rnd.choice(R)
+        elif c < 0.86 and len(S) >= 2:
+            u, v = rnd.sample(S, 2)
+        elif c < 0.90 and len(R) >= 2:
+            u, v = rnd.sample(R, 2)
+        elif c < 0.96 and F:
+            u, v = rnd.choice(F), rnd.choice(S + R)
+        else:
+            u = v = rnd.choice(S + R)
+        if rnd.random() < 0.5:
+            u, v = v, u
+        a = {}
+        c = rnd.random()
+        if c < 0.9:
+            a["role"] = "reactant" if c < 0.45 else "product"
+        elif c < 0.95:
+            a["role"] = "in"
+        c = rnd.random()
+        if c >= 0.35:
+            a["stoich"] = rnd.choice([1, 1, 2, 3]) if c < 0.95 else rnd.choice([0, -1])
+            if rnd.random() < 0.1:
+                a["stoich"] = float(a["stoich"])
+        calls.append(["e", u, v, a])
+    rnd.shuffle(calls)
+    return {"written": {"cls": rnd.choice(WRITTEN_CLASSES), "nodes": nodes, "calls": calls}}
+
+
+def work_written(case):
+    """Build the object call by call; observe build_S_minus_plus / build_S.  -> obs (with the bip.stoich request)."""
+    import traceback
+    import networkx as nx
+    import numpy as np
+    from synkit.CRN.Props import stoich
+
+    w = case["written"]
+    G = getattr(nx, w["cls"])()
+    log, arcs = [f"G = nx.{w['cls']}()"], []
+    for call in w["calls"]:
+        if call[0] == "n":
+            nd = w["nodes"][call[1]]
+            G.add_node(nd["id"], **nd["attrs"])
+            log.append(f"G.add_node({nd['id']!r}, **{nd['attrs']!r})")
+        else:
+            u, v = w["nodes"][call[1]]["id"], w["nodes"][call[2]]["id"]
+            G.add_edge(u, v, **call[3])
+            arcs.append((u, v, call[3]))
+            log.append(f"G.add_edge({u!r}, {v!r}, **{call[3]!r})")
+    obs = {"bip": bip_request(G, arcs=arcs), "construction": log, "dump": None}
+    try:
+        sp2, rules2, Sm, Sp = stoich.build_S_minus_plus(G)
+        sp, rules, S = stoich.build_S(G)
+    except ValueError as e:
+        obs["error"] = "ValueError"
+        obs["error_text"] = str(e)
+        return obs
+    except Exception as e:
+        obs["crash"] = f"{type(e).__name__}: {e}"
+        obs["trace"] = traceback.format_exc()[-1500:]
+        return obs
+    Si, e0 = as_int_matrix(S)
+    Smi, e1 = as_int_matrix(Sm)
+    Spi, e2 = as_int_matrix(Sp)
+    obs.update(species=[str(x) for x in sp], rules=[str(x) for x in rules], S=Si, S_minus=Smi, S_plus=Spi,
+               integral=bool(e0 and e1 and e2 and np.asarray(S).shape == (len(sp), len(rules))),
+               same_orders=(list(sp) == list(sp2) and list(rules) == list(rules2)))
+    return obs
+
+
+def judge_written(obs):
+    if "crash" in obs:
+        return [("build_S raised on a NetworkX graph: " + obs["crash"].split(":")[0], {"error": obs["crash"], "trace": obs["trace"]}, ())]
+    v = judge_bip(obs)
+    if "error" not in obs and not obs["same_orders"]:
+        v.append(("build_S and build_S_minus_plus return different label orders for the same graph", {}, ()))
+    return v
+
+
+def written_failures(ctx, case):
+    obs = work_written(case)
+    attach_bip(ctx, [obs])
+    return obs, judge_written(obs)
+
+
+def shrink_written(ctx, case, what):
+    """Greedy: drop construction calls while the same gate keeps failing."""
+    def fails(c):
+        try:
+            return any(t[0] == what for t in written_failures(ctx, c)[1])
+        except Exception:
+            return False
+
+    cur = json.loads(json.dumps(case))
+    budget, changed = 60, True
+    while changed and budget > 0:
+        changed = False
+        for a in range(len(cur["written"]["calls"])):
+            c = json.loads(json.dumps(cur))
+            del c["written"]["calls"][a]
+            budget -= 1
+            if budget <= 0:
+                break
+            if fails(c):
+                cur, changed = c, True
+                break
+    obs, _ = written_failures(ctx, cur)
+    return cur, {"construction": obs.get("construction")}
+
+
+def run_written(ctx, cases, tag):
+    state = {"unknown": 0}
+    rows = [work_written(c) for c in cases]
+    attach_bip(ctx, rows)
+    for case, obs in zip(cases, rows):
+        w = case["written"]
+        ctx.count(f"{tag}:graphs")
+        ctx.count(f"{tag}:class:{w['cls']}")
+        lean = obs.get("bip_lean")
+        if lean is None:
+            ctx.count(f"{tag}:skipped:" + str((obs.get("bip") or {}).get("skip")))
+            ctx.case(["written", case], False)
+            continue
+        ctx.count(f"{tag}:" + ("ValueError" if "error" in lean else "matrix"))
+        ctx.count(f"{tag}:hypotheses_of_graphS_eq_buildS:" + ("hold" if lean.get("wf") else "reaction_labels_tied" if lean.get("wfCore") else "fail"))
+        nstored, ncalls = len(lean.get("stored") or []), sum(1 for c in w["calls"] if c[0] == "e")
+        if nstored < ncalls:
+            ctx.count(f"{tag}:an_add_edge_call_overwrote_a_stored_edge")
+        if any(c[0] == "e" and w["nodes"][c[1]]["part"] == "r" and w["nodes"][c[2]]["part"] == "s" and c[3].get("role") == "reactant" or
+               c[0] == "e" and w["nodes"][c[1]]["part"] == "s" and w["nodes"][c[2]]["part"] == "r" and c[3].get("role") == "product"
+               for c in w["calls"]):
+            ctx.count(f"{tag}:some_arc_written_against_its_role")
+        nontrivial = "error" not in lean and any(x for row in lean["S_minus"] + lean["S_plus"] for x in row)
+        ctx.case(["written", case], nontrivial, sample={"stream": tag, **case} if len(w["calls"]) <= 5 else None)
+        for what, detail, classes, no_input in map(unpack, judge_written(obs)):
+            report(ctx, what, case, {**detail, "stream": tag, "construction": obs.get("construction")}, classes, no_input, state,
+                   lambda c, wh: shrink_written(ctx, c, wh))
+        if state["unknown"] > 40:
+            break
+
+
 def rx(r, p, rule=None, eid=None):
     return {"r": [[s, c] for s, c in r if c > 0], "p": [[s, c] for s, c in p if c > 0], "rule": rule, "eid": eid}
 
@@ -3268,6 +3572,10 @@ def setup(ctx):
         "harness exact arithmetic (Fraction Gaussian elimination, phase-1 simplex) only proposes certificates; a wrong certificate is rejected by Lean "
         "(infrastructure failure), it cannot produce a verdict",
         "hand-written model of build_S (SynKitModel/Stoich.lean) tied to /repo by this run; Driver/Stoich.lean JSON codec",
+        "hand-written model of the graph entry path (SynKitModel/BipGraph.lean: _as_bipartite, _split_species_reactions, "
+        "_species_and_reaction_order, build_S_minus_plus on a NetworkX graph, and NetworkX's own add_edge / DiGraph(Graph) semantics) tied to "
+        "/repo and to NetworkX by this run; Driver/BipGraph.lean JSON codec; the serialiser bip_request (node ids by str(), by repr() when two "
+        "ids coincide after str(); integral float coefficients as integers)",
     ]
     ctx.assumptions = [
         "inputs are CRNHyperGraph stores built through add_rxn / remove_species / remove_rxn (species labels and rules are plain strings)",
@@ -3364,10 +3672,18 @@ def setup(ctx):
                     "as in SESSIONS) and analysed again after every edit.  Graphs: the scale networks as DiGraph / Graph / MultiDiGraph / MultiGraph "
                     "with stoich given as int / float / numpy.int64 / numpy.float64 / numpy.int32 mixed within one graph, 30 % of the edges and 20 % "
                     "of the nodes carrying attributes the conventions do not mention (weight, capacity, label, id, name, coeff, stoichiometry, "
-                    "order, count, index, species) with values unlike the coefficient. GATES: " + GATES)
+                    "order, count, index, species) with values unlike the coefficient. "
+                    "GRAPH-WRITTEN (600 quick / 6000 thorough): graphs given by their construction only, no described network: one of "
+                    "DiGraph / MultiDiGraph / Graph / MultiGraph, 1-3 species nodes, 1-2 reaction nodes, 0-1 other node, typed by kind / "
+                    "bipartite / both / contradicting flag, labels present / absent / (8 %) tied, 8 % of the nodes never declared (they exist "
+                    "through add_edge only), 1-7 add_edge calls in random positions: 78 % species-reaction, the rest species-species / "
+                    "reaction-reaction / to the other node / self-loops, EITHER direction, role reactant / product / 'in' / absent, stoich "
+                    "absent / 1-3 / integral float / (rarely) 0, -1; repeated pairs, so that on the non-multi classes later calls overwrite "
+                    "stored edges. GATES: " + GATES)
     ctx.nontrivial_rule = ("distinct stored network (species + reactions with ids and rules) with at least one reaction and certified rank >= 1; "
                            "a session state is identified by the whole history (base network, edits, query plan) that led to it; "
-                           "a query on a hand-built graph by the graph description and the operations up to the query")
+                           "a query on a hand-built graph by the graph description and the operations up to the query; a graph-written "
+                           "case by its list of calls, non-trivial when build_S succeeds and S_minus or S_plus has a non-zero entry")
 
 
 def run(ctx):
@@ -3380,7 +3696,8 @@ def run(ctx):
             os.environ.setdefault(var, "1")
         pool()
         reg = load_regress()
-        run_nets(ctx, [c["net"] for c in reg if "steps" not in c and "ops" not in c], "regress")
+        run_nets(ctx, [c["net"] for c in reg if "steps" not in c and "ops" not in c and "written" not in c], "regress")
+        run_written(ctx, [{"written": c["written"]} for c in reg if "written" in c], "regress")
         run_graphs(ctx, [{k: c[k] for k in ("graph", "ops")} for c in reg if "ops" in c], "regress")
         run_sessions(ctx, [{k: c[k] for k in ("net", "first", "steps", "reuse_view") if k in c} for c in reg if "steps" in c], "regress")
         ctx.count("regress_cases", len(reg))
@@ -3420,6 +3737,9 @@ def run(ctx):
         run_nets(ctx, [scale_net(ctx.rnd) for _ in range(520 if ctx.quick else 5200)], "scale")
         run_sessions(ctx, [scale_session(ctx.rnd) for _ in range(60 if ctx.quick else 600)], "scale-session")
         run_graphs(ctx, [scale_graph_case(ctx.rnd) for _ in range(140 if ctx.quick else 1400)], "scale-graph")
+        # -- graphs given by their construction only: arcs either way, overwritten edges, missing roles, untyped nodes; the expected
+        #    answer is the Lean model of the graph reading on the add_edge calls
+        run_written(ctx, [written_graph_case(ctx.rnd) for _ in range(600 if ctx.quick else 6000)], "graph-written")
     finally:
         close_pool()
     ctx.violations.sort(key=lambda x: bool(x["no_input"]))     # failing inputs first (stable)
@@ -3432,7 +3752,9 @@ def replay(ctx, case):
     setup(ctx)
     c = case.get("case", case)
     try:
-        if "ops" in c:
+        if "written" in c:
+            run_written(ctx, [{"written": c["written"]}], "replay")
+        elif "ops" in c:
             run_graphs(ctx, [{k: c[k] for k in ("graph", "ops")}], "replay")
         elif "steps" in c:
             run_sessions(ctx, [c], "replay")
